@@ -414,6 +414,7 @@ type DAGOpts struct {
 	NoAbsent    bool
 	NoDupChild  bool
 	ManifestSHA bool // only sha256 for manifests (registries, oci index)
+	UniqueBytes bool // every blob has distinct bytes
 }
 
 var defaultATs = []string{"application/vnd.verif.sig", "application/vnd.verif.sbom", "application/vnd.good"}
@@ -466,6 +467,12 @@ func Specs(t *rapid.T, o DAGOpts) []NodeSpec {
 			s.Title = fmt.Sprintf("f%d.bin", titleN)
 			if rapid.IntRange(0, 4).Draw(t, label+"TitleDir") == 0 {
 				s.Title = fmt.Sprintf("d%d/f%d.bin", titleN%2, titleN)
+			}
+		}
+		if o.UniqueBytes {
+			s.Seed = 100 + len(specs)
+			if s.Size < 4 {
+				s.Size += 4
 			}
 		}
 		if o.SingleMT {
